@@ -134,12 +134,17 @@ PROPS = {
         "harness": "c02",
         "theorems": ["DL.C02_split", "DL.C02_bom", "DL.C02_crlf_file", "DL.C02_end_line", "DL.C02_end_dropped", "DL.skipWs_blanks",
                      "DL.takeNewline_lf", "DL.takeNewline_crlf", "DL.C02_crlf_token", "DL.takeNewline_comment", "DL.newlines0_lf",
-                     "DL.skipIgnored_comment", "DL.C02_queries"],
-        "partial": ["the whole-text statement readDoc (render l1 d) = readDoc (render l2 d) is not a theorem yet: the Lean side proves the "
-                    "packaging clauses (files, byte order mark, CRLF, End lines) and the layout-absorbing lemmas of the reader's primitives; "
-                    "that every listed rewrite leaves every answer unchanged is carried by the metamorphic correspondence (all queries, "
-                    "random compositions of the edits, string / file / multi-file packaging), and the reader model itself is tied to the "
-                    "real LALR parser on every text of the run plus a malformed stream",
+                     "DL.skipIgnored_comment", "DL.C02_queries",
+                     "DL.C02_read_simple_flat", "DL.C02_readNumber_show", "DL.C02_readNumber_show_end", "DL.C02_read_simple_num",
+                     "DL.C02_read_layout_flat", "DL.C02_layout_flat", "DL.C02_read_layout_decay", "DL.C02_layout_decay",
+                     "DL.C02_layout_queries", "DL.C02_exPlain", "DL.C02_exFancy", "DL.C02_exFancy_exPlain"],
+        "partial": ["C02_read_layout_decay / C02_layout_decay / C02_layout_queries (the reader returns the document from every rendering, "
+                    "hence two renderings of one document read alike and give the same tables) hold for documents meeting StmtOK and layouts "
+                    "meeting GoodLayoutD (blank runs, comments, blank and comment lines, LF/CRLF, comma / line-wrapped parameter lists, doubled "
+                    "semicolons, End line); outside those decidable hypotheses (e.g. a word parameter starting with a sign) the statement is "
+                    "carried by the metamorphic correspondence. The model renders generated documents under seeded layouts and the real "
+                    "parser reads that very text on every run (driver op render_layout); the reader model itself is tied to the real LALR "
+                    "parser on every text of the run plus a malformed stream",
                     "byte-level decoding by open() is modelled on characters (decodeFile) and exercised with real files"],
         "assumptions": ["wrapping applies to a parameter list that has at least one item (a line end between a bare model name and its "
                         "semicolon yields an empty list [] instead of '' - both 'empty'; observed, outside the listed edits)"],
